@@ -30,7 +30,9 @@ impl Paths {
         let filename = "kern_".to_string()
             + &location
                 .iter()
-                .map(|(tag, pos)| format!("{tag}_{:.2}", pos.to_f64()))
+                // full precision: masters can be closer together than 0.01, and two
+                // locations must never share a file (+ 0.0 folds -0.0 into 0.0)
+                .map(|(tag, pos)| format!("{tag}_{}", pos.to_f64() + 0.0))
                 .collect::<Vec<_>>()
                 .join("_")
             + ".yml";
